@@ -92,7 +92,8 @@ def closure_oracle(ctx, s, res, rec, case):
     """the closure clause, evaluated on the real run: when every product asked for during the request (successful
     branches and failed optional ones alike) was decided at one version, nothing reachable was set up before, and
     the request succeeded, the products set up among the reachable ones are exactly the dependency closure -
-    required lines, plus optional lines whose product sets up - each at that version.  (No -j line in the tables
+    required lines, plus optional lines whose product sets up (its version is found, its required dependencies set
+    up, and every command of its table can be executed) - each at that version.  (No -j line in the tables
     read, no --just / --max-depth / --keep: the conditions of closure_exact in coq/Props/C01.v.)"""
     rq = rec["request"]
     if not rec["ok"] or not rq.get("fwd", True) or rq.get("keep") or rq.get("just") or rq.get("max_depth") is not None:
@@ -128,7 +129,12 @@ def closure_oracle(ctx, s, res, rec, case):
             else:
                 if any(j for (opt, x, j) in lines(n)):
                     raise JustLine()           # a -j line in a table that is read: outside the clause as proved
-                memo[n] = all(sets_up(x) for (opt, x, j) in lines(n) if not opt)
+                # a table with a command that cannot be executed (the generator's only such command refers to a
+                # variable that nothing defines) does not set up either
+                raises = any("${UNDEFINED_VARIABLE}" in common.dec(x)
+                             for a in res["parsed"]["%s %s" % (n, D[n])]["actions"] if a[:2] in ("P,", "E,")
+                             for x in a.split(",")[1:])
+                memo[n] = not raises and all(sets_up(x) for (opt, x, j) in lines(n) if not opt)
         return memo[n]
     closure, todo = set(), [rq["name"]]
     try:
